@@ -75,7 +75,11 @@ class AstDB:
         fl = '::' if project_only else filters[0]
         os.makedirs(os.path.join(WORK, 'ast'), exist_ok=True)
         h = preprocess_hash(src, extra_inc)
-        key = hashlib.sha1((src + '|' + fl + '|' + h + ('|proj2' if project_only else '|v2')).encode()).hexdigest()
+        # the cache is keyed by the preprocessed text; file names inside it are stored relative to the repository root
+        # ("@REPO@/...") so that a cached dump made from a scratch copy (self-test, seed sweep) that no longer exists is
+        # still usable -- and never points into a deleted directory
+        srckey = src.replace(REPO + '/', '@REPO@/')
+        key = hashlib.sha1((srckey + '|' + fl + '|' + h + ('|proj3' if project_only else '|v3')).encode()).hexdigest()
         path = os.path.join(WORK, 'ast', key + '.json')
         self.byid = {}
         self._files = {}
@@ -103,12 +107,12 @@ class AstDB:
             del objs
             tmp = path + '.tmp%d' % os.getpid()
             with open(tmp, 'w') as f:
-                json.dump(keep, f)
+                f.write(json.dumps(keep).replace('"' + REPO + '/', '"@REPO@/'))
             os.rename(tmp, path)
             self.objs = keep
         else:
             with open(path) as f:
-                self.objs = json.load(f)
+                self.objs = json.loads(f.read().replace('"@REPO@/', '"' + REPO + '/'))
         if not self.objs:
             raise ExtractError('no declaration matches filter %r in %s' % (filt, src))
         for o in self.objs:
